@@ -607,3 +607,20 @@ def number_form(rng, v):
         forms += ["float", "np.float64"]
     f = rng.choice(forms)
     return {"int": int, "np.int64": np.int64, "np.uint64": np.uint64, "float": float, "np.float64": np.float64}[f](v)
+
+
+_PATH_FORM = [0]
+
+
+def path_form(path):
+    """the same directory in the spellings a caller may use (rotating): absolute, with a trailing slash,
+    relative to the current directory, './relative/'"""
+    _PATH_FORM[0] += 1
+    k = _PATH_FORM[0] % 5
+    if k == 1:
+        return path + os.sep
+    if k == 2:
+        return os.path.relpath(path)
+    if k == 3:
+        return os.path.join(".", os.path.relpath(path)) + os.sep
+    return path
